@@ -31,7 +31,9 @@ TraceNext ==
    \/ IsEv("lock_open") /\ LockOpen /\ Post
    \/ IsEv("lock_write") /\ LockWrite /\ Post
    \/ IsEv("lock_close") /\ LockClose /\ Post
-   \/ IsEv("crash") /\ Crash /\ Post
+   \/ IsEv("crash") /\ (Crash \/ CrashCaught) /\ Post
+   \/ IsEv("iofail") /\ IOFail /\ Post
+   \/ IsEv("retry") /\ Retry /\ Post
    \/ IsEv("reopen") /\ Reopen /\ Post
    \/ IsEv("modify") /\ Modify(Ev.arg[1]) /\ Post
    \/ IsEv("delete") /\ Delete(Ev.arg[1]) /\ Post
